@@ -622,8 +622,11 @@ def r8_given_seed_is_used(ctx, rep, R='C11.R8'):
             return any(cs) if isinstance(t.op, ast.Or) else all(cs)
         return truth(ev(t, env, kind))
 
+    finished = []
+
     def run_block(stmts, env, kind):
-        """returns the list of environments at the end of the block"""
+        """returns the list of environments at the end of the block; paths that end in a
+        ``return`` are collected in *finished*"""
         envs = [env]
         for st in stmts:
             nxt = []
@@ -646,6 +649,8 @@ def r8_given_seed_is_used(ctx, rep, R='C11.R8'):
                         nxt += run_block(st.body, dict(e_), kind) + run_block(st.orelse, dict(e_), kind)
                     else:
                         nxt += run_block(st.body if c else st.orelse, dict(e_), kind)
+                elif isinstance(st, ast.Return):
+                    finished.append(e_)
                 elif isinstance(st, (ast.Expr, ast.Pass, ast.AnnAssign, ast.Assert)):
                     nxt.append(e_)
                 else:
@@ -657,7 +662,8 @@ def r8_given_seed_is_used(ctx, rep, R='C11.R8'):
     n = 0
     try:
         for kind in ('NONE', 'ZERO', 'NONZERO'):
-            for env in run_block(init.node.body, {}, kind):
+            del finished[:]
+            for env in run_block(init.node.body, {}, kind) + finished:
                 n += 1
                 v = env.get('self.seed')
                 if kind == 'NONE':
